@@ -6,7 +6,7 @@ Extraction Language OCaml.
 Extraction "model.ml"
   r of_Z val fadd fsub fmul fopp finv feqb
   mkGate mkWires row_okb row_sum t_arith t_range t_logic t_fixed t_var
-  satb first_bad block_satb npo2 pi_at
+  satb first_bad block_satb npo2 pis rows
   mkC c_new mkCS initialized cs_empty wval
   append_witness append_custom_gate append_gate append_evaluated_output
   gate_add assert_equal assert_equal_constant append_constant append_public
